@@ -268,6 +268,124 @@ def smt_icm(n: int, k: int, budget_s: float = 250) -> dict:
                 solver_s=round(time.time() - t0, 2), sample_queries=samples[:6] + [x for x in samples if x['result'] != 'unsat'][:6])
 
 
+def _split_icm() -> Any:
+    """Cut calculate_icm (from the CURRENT source) at the assignment of chip_percentages.
+    Returns (head, tail) or raises ValueError when the function no longer has that shape.
+    head(chips) -> chip_percentages ; tail(payouts, n, chip_percentages) -> icms.
+    The cut is sound only if the statements after it use `chips` through len() alone and never `chip_sum`:
+    that is checked on the AST."""
+    import ast
+    import inspect
+    import textwrap
+    from pokerkit import analysis
+    src = textwrap.dedent(inspect.getsource(analysis.calculate_icm))
+    fn = ast.parse(src).body[0]
+    body = [b for b in fn.body if not (isinstance(b, ast.Expr) and isinstance(getattr(b, 'value', None), ast.Constant))]
+    cut = None
+    for i, b in enumerate(body):
+        if isinstance(b, ast.Assign) and len(b.targets) == 1 and isinstance(b.targets[0], ast.Name) \
+                and b.targets[0].id == 'chip_percentages':
+            cut = i
+    if cut is None:
+        raise ValueError('no chip_percentages assignment')
+    head_body, tail_body = body[:cut + 1], body[cut + 1:]
+    for b in tail_body:
+        parents = {}
+        for node in ast.walk(b):
+            for ch in ast.iter_child_nodes(node):
+                parents[ch] = node
+        for node in ast.walk(b):
+            if isinstance(node, ast.Name) and node.id in ('chips', 'chip_sum'):
+                par = parents.get(node)
+                ok = (node.id == 'chips' and isinstance(par, ast.Call) and isinstance(par.func, ast.Name)
+                      and par.func.id == 'len' and isinstance(node.ctx, ast.Load))
+                if not ok:
+                    raise ValueError(f'{node.id} used after the cut at line {node.lineno}')
+            if isinstance(node, ast.Name) and node.id == 'chip_percentages' and not isinstance(node.ctx, ast.Load):
+                raise ValueError('chip_percentages reassigned after the cut')
+    pay_stmts = [b for b in head_body if isinstance(b, ast.Assign) and isinstance(b.targets[0], ast.Name)
+                 and b.targets[0].id == 'payouts']
+    head_src = 'def head(payouts, chips):\n' + textwrap.indent('\n'.join(ast.unparse(b) for b in head_body), '    ') + \
+               '\n    return chip_percentages\n'
+    tail_src = 'def tail(payouts, chips, chip_percentages):\n' + \
+               textwrap.indent('\n'.join(ast.unparse(b) for b in pay_stmts + tail_body), '    ') + '\n'
+    ns = dict(vars(analysis))
+    exec(compile(head_src, '<icm-head>', 'exec'), ns)
+    exec(compile(tail_src, '<icm-tail>', 'exec'), ns)
+    return ns['head'], ns['tail'], head_src, tail_src
+
+
+def smt_icm_split(n: int, k: int, budget_s: float = 250) -> dict:
+    """calculate_icm cut at chip_percentages (from the current source): head lemma + tail obligations +
+    syntactic identity of tail(head(c)) with the whole function, all on z3 Reals."""
+    import z3
+    from pokerkit.analysis import calculate_icm
+    t0 = time.time()
+    try:
+        head, tail, head_src, tail_src = _split_icm()
+    except Exception as e:
+        return dict(status='inconclusive', queries=0, reason=f'cut not applicable: {type(e).__name__}: {e}'[:300])
+    chips = [z3.Real(f'c{i}') for i in range(n)]
+    pay = [z3.Real(f'p{j}') for j in range(k)]
+    q = [z3.Real(f'q{i}') for i in range(n)]
+    try:
+        whole = calculate_icm(pay, chips)
+        hq = head(pay, chips)
+        composed = tail(pay, [None] * n, hq)
+        vals = tail(pay, [None] * n, q)
+    except Exception as e:
+        return dict(status='inconclusive', queries=0,
+                    reason=f'calculate_icm cannot be executed on z3 Reals any more: {type(e).__name__}: {e}'[:300])
+    samples, queries, res = [], 0, 'confirmed'
+    same = len(whole) == len(composed) == n and all(z3.simplify(a - b).eq(z3.RealVal(0)) or a.eq(b) for a, b in zip(whole, composed))
+    samples.append({'query': f'icm n={n} payouts={k}: tail(head(c)) is the term the whole function builds', 'result': str(same)})
+    if not same:
+        return dict(status='inconclusive', queries=0, reason='composition of the two halves is not the whole function', sample_queries=samples)
+    domc = [c > 0 for c in chips]
+    domq = [x > 0 for x in q] + [sum(q) == 1]
+    domp = [p >= 0 for p in pay] + [pay[j] >= pay[j + 1] for j in range(k - 1)]
+    obligations = [('head: percentages positive', domc, z3.Or(*[h <= 0 for h in hq])),
+                   ('head: percentages sum to one', domc, sum(hq) != 1)]
+    for i in range(n):
+        for j in range(n):
+            if i != j:
+                obligations.append((f'head: order{i}{j}', domc, z3.And(chips[i] >= chips[j], hq[i] < hq[j])))
+    obligations += [('tail: nonneg', domq + domp, z3.Or(*[v < 0 for v in vals])),
+                    ('tail: sum', domq + domp, sum(vals) != sum(pay))]
+    for i in range(n):
+        for j in range(n):
+            if i != j:
+                obligations.append((f'tail: order{i}{j}', domq + domp, z3.And(q[i] >= q[j], vals[i] < vals[j])))
+    for name, dom, neg in obligations:
+        s = z3.Solver()
+        s.set('timeout', int(max(5, (budget_s - (time.time() - t0))) * 1000 / 2))
+        s.add(*dom)
+        s.add(neg)
+        t = time.time()
+        r = str(s.check())
+        queries += 1
+        samples.append({'query': f'icm n={n} payouts={k}: {name}', 'result': r, 'solver_s': round(time.time() - t, 2)})
+        if r == 'sat':
+            m = s.model()
+            src = chips if name.startswith('head') else q
+            cv = [float(m.eval(c, model_completion=True).as_fraction()) for c in src]
+            pv = [float(m.eval(p, model_completion=True).as_fraction()) for p in pay]
+            real = calculate_icm(pv, cv)
+            bad = (min(real) < -1e-9 or abs(sum(real) - sum(pv)) > 1e-6 * max(1, sum(pv)) or
+                   any(cv[i] >= cv[j] and real[i] < real[j] - 1e-9 for i in range(n) for j in range(n)))
+            if bad:
+                return dict(status='violation', kind='icm-' + name, detail=f'payouts {pv} chips {cv} -> {real}',
+                            queries=queries, sample_queries=samples,
+                            replay={'values': {'payouts': pv, 'chips': cv}, 'outcome': 'viol'})
+            return dict(status='harness-error', reason=f'icm model does not reproduce in floats: {name}: {pv} {cv} {real}',
+                        queries=queries)
+        if r != 'unsat':
+            res = 'inconclusive'
+    return dict(status=res, reason='all unsat' if res == 'confirmed' else 'some unknown', queries=queries,
+                solver_s=round(time.time() - t0, 2),
+                sample_queries=samples[:8] + [x for x in samples if x['result'] not in ('unsat', 'True')][:6])
+
+
 def jobs(tier: str, seed: int) -> list[dict]:
     out = []
     B = 300 if tier == 'quick' else 900
@@ -284,11 +402,16 @@ def jobs(tier: str, seed: int) -> list[dict]:
     for n, k in ((2, 2), (3, 2), (3, 3), (4, 3)):
         out.append(dict(name=f'icm/grid/n{n}/payouts{k}', fn='h_icm_grid', traced=False, params=dict(n=n, k=k),
                         budget_s=B, must_cover=['done']))
-    for n, k in ((2, 1), (2, 2), (3, 1), (3, 2), (3, 3), (4, 1), (4, 2)):
+    for n, k in ((2, 1), (2, 2), (3, 1), (3, 2), (4, 1)):
         out.append(dict(name=f'icm/n{n}/payouts{k}', kind='native', fn='smt_icm', params=dict(n=n, k=k, budget_s=B),
                         budget_s=B))
+    # cut at chip_percentages (normalised chips): decides the order obligations the monolithic query leaves unknown
+    for n, k in ((2, 2), (3, 2), (3, 3)):
+        out.append(dict(name=f'icm/split/n{n}/payouts{k}', kind='native', fn='smt_icm_split', params=dict(n=n, k=k, budget_s=B),
+                        budget_s=B))
     if tier == 'thorough':
-        for n, k in ((4, 3), (4, 4), (5, 2)):
-            out.append(dict(name=f'icm/n{n}/payouts{k}', kind='native', fn='smt_icm', params=dict(n=n, k=k, budget_s=B),
-                            budget_s=B))
+        # (4,2) and larger: the order obligations stay `unknown` in z3 nlsat after 600 s each (reported as inconclusive)
+        for n, k in ((4, 2), (4, 3), (4, 4), (5, 2)):
+            out.append(dict(name=f'icm/split/n{n}/payouts{k}', kind='native', fn='smt_icm_split',
+                            params=dict(n=n, k=k, budget_s=B), budget_s=B))
     return out
